@@ -134,6 +134,31 @@ func genFresh(r *corr.Rand) (setup []string, threads [][]string) {
 	return
 }
 
+// genEmptyDir: directories that have never had an entry are listed (through handles opened before and during) while
+// their first entries are created
+func genEmptyDir(r *corr.Rand) (setup []string, threads [][]string) {
+	h := corr.HexS
+	setup = []string{"mkdir " + h("/e") + " 493", "mkdir " + h("/e2") + " 493", "mkdirall " + h("/p/q") + " 493"}
+	dirs := []string{"/e", "/e2", "/p/q"}
+	nt := 2 + r.Intn(3)
+	for t := 0; t < nt; t++ {
+		var ops []string
+		d := corr.Pick(r, dirs)
+		if t%2 == 0 {
+			ops = append(ops, "open "+h(d))
+			for k := 0; k < 1+r.Intn(3); k++ {
+				ops = append(ops, corr.Pick(r, []string{"h.readdir 0 -1", "h.readdirnames 0 -1", "h.readdir 0 1", "h.stat 0", "stat " + h(d)}))
+			}
+		} else {
+			for k := 0; k < 1+r.Intn(3); k++ {
+				ops = append(ops, corr.Pick(r, []string{"create " + h(d+"/x"), "mkdir " + h(d+"/sub") + " 493", "openfile " + h(d+"/y") + " 66 420", "mkdirall " + h(d+"/m/n") + " 493", "remove " + h(d+"/x")}))
+			}
+		}
+		threads = append(threads, ops)
+	}
+	return
+}
+
 // genIO: private handles of several goroutines on one file
 func genIO(r *corr.Rand) (setup []string, threads [][]string) {
 	h := corr.HexS
@@ -187,7 +212,9 @@ func main() {
 		for i := 0; i < n; i++ {
 			var setup []string
 			var threads [][]string
-			switch i % 5 {
+			switch i % 6 {
+			case 5:
+				setup, threads = genEmptyDir(rng.Fork())
 			case 4:
 				setup, threads = genFresh(rng.Fork())
 			case 1:
